@@ -469,7 +469,8 @@ def files_case(case):
                               "outfile #%d of formatter %s: %r" % (i, f, e)))
                     continue
             elif len(formats) - nout == 1:
-                text = obs["stdout"]
+                # stdout is shared with the runner's own diagnostics: its "ABORTED: By user." line is not formatter output
+                text = re.sub(r"\n?ABORTED: By user\.\n", "\n", obs["stdout"])
             else:
                 continue        # several formatters share stdout: interleaved, not separated here
             where = "outfile" if i < nout else "stdout"
@@ -514,6 +515,8 @@ SWITCHES = {
     "default": {"extra": ["--no-color"]},
     "tags_hide": {"tags": "not t", "show_skipped": False, "extra": ["--no-color"]},
     "tags_show": {"tags": "not t", "show_skipped": True, "extra": ["--no-color"]},
+    # positive selection: a feature may be selected ONLY through a tag on an examples block / inner scenario
+    "tags_t_hide": {"tags": "t", "show_skipped": False, "extra": ["--no-color"]},
     "dry": {"dry": True, "extra": ["--no-color"]},
     "dry_tags_hide": {"dry": True, "tags": "not t", "show_skipped": False, "extra": ["--no-color"]},
     "plainish": {"extra": ["--no-color", "--no-timings", "--no-multiline"]},
@@ -533,6 +536,9 @@ def programs(tier):
         P.F((P.O2([((), (("pass",),)), (t, (("pass",),))]), P.R((P.S(("pass", "pass")), P.S(("pass",), t)), bg=("pass",))), bg=("pass",)),
         P.F((P.R((P.S(("pass",)),), bg=("pass",)), P.R((P.O((("pass", "pass"),), ncols=2), P.S(("pass",))), tags=t))),
         P.F((P.S(("pass", "pass", "pass")),)),
+        # selected ONLY through the tag of an examples block (nothing else in the feature / rule carries @t)
+        P.F((P.O2([((), (("pass",),)), (t, (("pass",), ("pass",)))]), P.S(("pass",)))),
+        P.F((P.S(("pass",)), P.R((P.O((("pass",), ("pass",)), extags=t),)))),
         # @wip (own and inherited): a pending step is accepted as pending_warn - a status whose name differs from
         # its normalized name, so a report that prints the normalized status no longer mirrors the model
         P.F((P.S(("pass", "pass"), ("wip",)), P.R((P.S(("pass", "pass")), P.O((("pass",),))), tags=("wip",)))),
